@@ -82,7 +82,8 @@ fn chain_spec() -> BoxedStrategy<ChainSpec> {
 			proptest::collection::vec(any::<u8>(), 16),
 			1u8..=128,
 			proptest::collection::vec(any::<u8>(), 16),
-			prop_oneof![Just(vec![]), Just(vec![5u8]), Just(vec![5u8, 6]), Just(vec![0u8, 5, 6])],
+			// key-usage lists as callers build them: any order, with repeats
+			prop_oneof![Just(vec![]), Just(vec![5u8]), Just(vec![5u8, 6]), Just(vec![0u8, 5, 6]), Just(vec![5u8, 6, 5]), Just(vec![6u8, 5, 0, 6, 0])],
 			prop_oneof![Just(vec![]), Just(vec![EkuSpec::CodeSigning]), Just(vec![EkuSpec::EmailProtection, EkuSpec::TimeStamping])],
 			prop::bool::weighted(0.25),
 		),
@@ -245,7 +246,7 @@ fn build(c: &ChainSpec, violation: Option<&Violation>) -> Result<Built3, String>
 					issuer.key_usages = vec![];
 				}
 			},
-			Some(Violation::KeyCertSign) => issuer.key_usages = vec![0, 6],
+			Some(Violation::KeyCertSign) => issuer.key_usages = if c.at % 2 == 0 { vec![0, 6] } else { vec![6, 0, 6] },
 			_ => {},
 		}
 	}
